@@ -25,7 +25,7 @@ func init() {
 			m.RunBlockEnd(s, "R-BLOCKEND")
 			m.RunBlockStart(s, "R-BLOCKSTART")
 			m.RunBodyEntry(s, "R-BODYENTRY") // an empty body (of a slot, an insert, a branch, a loop) does not take the enclosing closer
-			m.RunLoop(s, "R-LOOP") // a truthy @breakIf / @continueIf acts on its loop wherever it sits in the body (also under @elseif)
+			m.RunLoop(s, "R-LOOP")           // a truthy @breakIf / @continueIf acts on its loop wherever it sits in the body (also under @elseif)
 			m.RunPrefixKW(s, "R-PREFIXKW")
 			m.RunEmit(s, "R-EMIT")
 			s.RequireMin("R-TRUTH", 12, "7 table rows + 5 users")
